@@ -108,7 +108,12 @@ func Die(format string, a ...any) {
 type RNG struct{ s uint64 }
 
 // NewRNG seeds.
-func NewRNG(seed uint64) *RNG { return &RNG{s: seed*0x9E3779B97F4A7C15 + 0x1234567} }
+func NewRNG(seed uint64) *RNG {
+	r := &RNG{s: seed*0x9E3779B97F4A7C15 + 0x1234567}
+	// scramble so that neighbouring seeds give unrelated streams
+	r.s = r.U64() ^ (r.U64() << 1)
+	return r
+}
 
 // U64 returns the next value.
 func (r *RNG) U64() uint64 {
